@@ -44,6 +44,13 @@ pub trait Context {
         &mut self,
         disabled: bool,
     ) -> EvalexprResult<(), Self::NumericTypes>;
+
+    /// Verification hook: a JSON projection of this context, if it is one of the provided contexts.
+    #[cfg(evalexpr_verif)]
+    #[doc(hidden)]
+    fn verif_snapshot(&self) -> Option<String> {
+        None
+    }
 }
 
 /// A context that allows to assign to variables.
@@ -135,6 +142,16 @@ impl<NumericTypes: EvalexprNumericTypes> Context for EmptyContext<NumericTypes> 
             Err(EvalexprError::BuiltinFunctionsCannotBeEnabled)
         }
     }
+
+    #[cfg(evalexpr_verif)]
+    fn verif_snapshot(&self) -> Option<String> {
+        crate::verif::snapshot::<NumericTypes>(
+            "Empty",
+            true,
+            std::iter::empty(),
+            std::iter::empty(),
+        )
+    }
 }
 
 impl<NumericTypes: EvalexprNumericTypes> IterateVariablesContext for EmptyContext<NumericTypes> {
@@ -201,6 +218,16 @@ impl<NumericTypes: EvalexprNumericTypes> Context
         } else {
             Ok(())
         }
+    }
+
+    #[cfg(evalexpr_verif)]
+    fn verif_snapshot(&self) -> Option<String> {
+        crate::verif::snapshot::<NumericTypes>(
+            "EmptyBuiltin",
+            false,
+            std::iter::empty(),
+            std::iter::empty(),
+        )
     }
 }
 
@@ -311,6 +338,14 @@ impl<NumericTypes: EvalexprNumericTypes> Context for HashMapContext<NumericTypes
         argument: &Value<Self::NumericTypes>,
     ) -> EvalexprResultValue<Self::NumericTypes> {
         if let Some(function) = self.functions.get(identifier) {
+            #[cfg(evalexpr_verif)]
+            {
+                let scope = crate::verif::UserFunction::enter();
+                let result = function.call(argument);
+                scope.leave(identifier, argument, &result);
+                return result;
+            }
+            #[cfg(not(evalexpr_verif))]
             function.call(argument)
         } else {
             Err(EvalexprError::FunctionIdentifierNotFound(
@@ -329,6 +364,16 @@ impl<NumericTypes: EvalexprNumericTypes> Context for HashMapContext<NumericTypes
     ) -> EvalexprResult<(), NumericTypes> {
         self.without_builtin_functions = disabled;
         Ok(())
+    }
+
+    #[cfg(evalexpr_verif)]
+    fn verif_snapshot(&self) -> Option<String> {
+        crate::verif::snapshot(
+            "HashMap",
+            self.without_builtin_functions,
+            self.variables.iter(),
+            self.functions.keys(),
+        )
     }
 }
 
